@@ -126,6 +126,14 @@ class Source:
     def _collect_stmt(self, m, st, prefix, cls, outer):
         if isinstance(st, FuncNode):
             f = Func(m, st, prefix + st.name, cls, outer)
+            accessor = [unparse(d).rsplit(".", 1)[1] for d in st.decorator_list if unparse(d).rsplit(".", 1)[0] == st.name and "." in unparse(d)]
+            if accessor and accessor[0] in ("setter", "deleter", "getter") and (m.name, f.qualname) in self.funcs:
+                # `@name.setter def name(...)`: the property keeps its getter under the name; the accessor is kept beside it
+                self.funcs[(m.name, f.qualname + "." + accessor[0])] = f
+                self.accessors = getattr(self, "accessors", {})
+                self.accessors[(m.name, f.qualname, accessor[0])] = f
+                self._collect_nested(m, st, prefix + st.name + ".", cls, f)
+                return
             self.funcs[(m.name, f.qualname)] = f
             for n in ast.walk(st):
                 pass
